@@ -85,6 +85,7 @@ func genQueue(repo, out string) {
 
 	// fail-closed defaults
 	requeueOverwrite, onHoldOverwrite, putOverwrite, onHoldRepush := true, false, false, false
+	onHoldPutLatest := false
 	known := arms == 5
 
 	if releaseArm != nil {
@@ -131,6 +132,18 @@ func genQueue(repo, out string) {
 			}
 		}
 
+		if okShape {
+			// a Put for a key that is being processed parks the value — the LATEST one
+			is := putArm.Body[0].(*ast.IfStmt)
+
+			var body []string
+			for _, st := range is.Body.List {
+				body = append(body, src(st))
+			}
+
+			onHoldPutLatest = strings.Join(body, " ;; ") == "_, alreadyOnHold := onHoldQueue[item.Key] ;; onHoldQueue[item.Key] = item.Value ;; if !alreadyOnHold { queue.length.Add(1) } ;; continue"
+		}
+
 		if okShape && len(calls) == 1 {
 			if a, ok := boolArg(calls[0], "pqueue.Push(item.Key, item.Value, time.Now(), "); ok {
 				putOverwrite = a
@@ -144,6 +157,8 @@ func genQueue(repo, out string) {
 		known = false
 	}
 
+	l.line("/-- put arm, key on hold: `onHoldQueue[key] = value` unconditionally (the latest value is parked), length grows only for a new entry -/")
+	l.line("def onHoldPutKeepsLatest : Bool := %s", leanBool(onHoldPutLatest))
 	l.line("/-- `overwriteValue` of `pqueue.Push(released.Key, released.Value, released.ReleaseAfter, _)` (release arm of queue.Run) -/")
 	l.line("def requeueOverwrite : Bool := %s", leanBool(requeueOverwrite))
 	l.line("/-- the release arm deletes a parked value from onHoldQueue and pushes it with time.Now() -/")
